@@ -19,6 +19,63 @@ TRUSTED = ["rustc MIR lowering", "union-find (IntPartition) correctness, see C20
 ASSUMPTIONS = ["the subgroup has finite index (the routine asserts a 100000-row limit otherwise)"]
 
 
+def compact_slots(ctx, g):
+    """compact(): the live rows (canon(k) == k) are renumbered (base row 0, the others 1, 2, .. in order, counter incremented per numbered row) and
+    EVERY defined entry of every live row is copied as result.set(old_to_new[k], g, old_to_new[c]) with c = get(k, g) - row, letter and image
+    all translated, over all rows and all letters"""
+    cp = ctx.body(CT + "::compact")
+    ctx.scan([cp])
+    me = ("param", 1, cp.debug.get(1, ""))
+    sets = [(bi, [strip(norm(cp.origin(x), g)) for x in t["args"]]) for bi, t in cp.calls(exact=CT + "::set")]
+    bad = None
+    if len(sets) != 1:
+        bad = "%d set(..) calls" % len(sets)
+    else:
+        bi, a = sets[0]
+        r_, gl, im = as_index(a[1]), a[2], as_index(a[3])
+        if not (r_ and im and r_[0] == im[0]):
+            bad = "row and image are not both translated through one renumbering table: set(%s, .., %s)" % (show(a[1], 1)[:30], show(a[3], 1)[:30])
+        else:
+            k, c = strip(r_[1]), strip(im[1])
+            want_c = ("field", ("variant", ("call", CT + "::get", (me, k, gl)), "Some"), "0")
+            fa = [atom_norm(x, g) for x in cp.facts_at(bi)]
+            live = any(x[0] == "rel" and x[1] == "Eq" and {strip(x[2]), strip(x[3])} == {("call", CT + "::canon", (me, k)), k} for x in fa)
+            rk = loop_range_of_payload(cp, k, g)
+            gs = iter_source(cp, gl, g)
+            if c != want_c:
+                bad = "the image copied is not get(k, g) of the same row and letter: %s" % show(c, 1)[:60]
+            elif not live:
+                bad = "entries are copied from rows that are not their own representative"
+            elif not (rk and eval_int(rk[0]) == 0 and not rk[2] and is_call(strip(rk[1]), CT + "::len")):
+                bad = "not every row 0..len() is visited"
+            elif not (isinstance(gs, tuple) and contains(norm(gs, g), lambda y: is_call(y, CT + "::all_gens"))):
+                bad = "not every letter of all_gens() is copied"
+            else:
+                # the numbering counter: stored, then incremented, inside the same guard
+                tab = r_[0]
+                stores = []
+                for bj, si, s in cp.assigns():
+                    if [e["k"] for e in s["place"]["p"]] == ["deref"]:
+                        tgt = strip(norm(cp.local_origin(s["place"]["l"]), g))
+                        if is_call(tgt, "IndexMut::index_mut") and strip(tgt[2][0]) == tab:
+                            stores.append((bj, strip(tgt[2][1]), strip(norm(cp.rv_origin(s["rv"]), g))))
+                if len(stores) != 1 or stores[0][2][0] != "local":
+                    bad = "the renumbering table is not filled by one `old_to_new[k] = n`"
+                else:
+                    sb_, kk, n_ = stores[0]
+                    defs = [(dbb, strip(norm(d, g))) for dbb, d in cp.all_defs_origins(n_[1])]
+                    inc = [dbb for dbb, d in defs if unov_deep(d) == ("binop", "Add", n_, ("int", 1))]
+                    fa2 = [atom_norm(x, g) for x in cp.facts_at(sb_)]
+                    live2 = any(x[0] == "rel" and x[1] == "Eq" and {strip(x[2]), strip(x[3])} == {("call", CT + "::canon", (me, kk)), kk} for x in fa2)
+                    rk2 = loop_range_of_payload(cp, kk, g)
+                    if len(inc) != 1 or not (cp.dominates(sb_, inc[0]) or sb_ == inc[0]) or not live2:
+                        bad = "the counter is not incremented once for every numbered live row"
+                    elif not (rk2 and eval_int(rk2[0]) == 0 and not rk2[2] and is_call(strip(rk2[1]), CT + "::len")):
+                        bad = "not every row is considered for a number"
+    ctx.ob("T4-table-primitives", cp.name, "set(old_to_new[k], g, old_to_new[get(k, g)])", "ok" if not bad else "violation",
+           "live rows numbered consecutively; every defined entry of every live row copied with row and image translated" if not bad else bad)
+
+
 def table_primitives(ctx, g):
     """the primitives every enumeration step is written in.
     all_gens(): every generator and every inverse exactly once, no 0 (evaluated for 3 generators).
@@ -388,3 +445,4 @@ def run(ctx):
                     "the enumeration keeps defining rows and never closes" % [show_atom(x)[:40] for x in fa if x[0] == "rel"][:4], sc.span_of(bi))
     ctx.floor("join/merge sites in scan_and_connect", len(list(sc.calls(exact=CT + "::join"))) + len(list(sc.calls(exact=CT + "::merge"))), 2)
     table_primitives(ctx, g)
+    compact_slots(ctx, g)
